@@ -24,6 +24,39 @@ def install_np(*modules):
     return shim
 
 
+class _StepH5:
+    """the real h5py with crash points: a worker chosen by the fault
+    model can die on opening a file or just after closing one"""
+
+    def __init__(self):
+        import h5py
+        from symx import mpmodel
+
+        class File(h5py.File):
+            def __init__(self, name, mode='r', *a, **k):
+                mpmodel.step(f'open {os.path.basename(str(name))} {mode}')
+                super().__init__(name, mode, *a, **k)
+
+            def __exit__(self, *a):
+                name = os.path.basename(str(self.filename))
+                r = super().__exit__(*a)
+                if a and a[0] is None:
+                    mpmodel.step(f'closed {name}')
+                return r
+        self.File = File
+        self._h5py = h5py
+
+    def __getattr__(self, n):
+        return getattr(self._h5py, n)
+
+
+def install_step_h5(*modules):
+    shim = _StepH5()
+    for m in modules:
+        patch(m, 'h5py', shim)
+    return shim
+
+
 def shimmed(mode):
     return mode in ('sym', 'shimmed-concrete')
 
